@@ -288,6 +288,13 @@ def run(ctx, report):
     _cvr(ctx, R8, only='copy')
 
     # ---------------------------------------------------------------- D7 one representation per constant
+    from .. import simpeval
+    R9 = report.rule('C13.D9', 'the simplifier evaluated on the rewrite family: simplifying a copy of a simplified expression returns it unchanged (idempotence)', floor=20)
+    simpeval.emit(R9, ctx, lambda l: True, ('idempotence',))
+    R10 = report.rule('C13.D10', 'expressions that differ only in the order or nesting of the operands of + * ^ & | simplify to the identical expression (evaluated on 2-4 operand groups '
+                      'with identifiers, constants, memory reads, slices, conditionals)', floor=30)
+    simpeval.emit_groups(R10, ctx, 'order', 'order-sensitive result')
+
     R7 = report.rule('C13.D7', 'a constant has one representation: the simplifier rebuilds a constant leaf of another integer type in the table\'s (unsigned) type, and every constant it builds '
                      'takes its type from that table or from a constant operand', floor=3)
     hlp7 = ctx.mod('expr_helper')
